@@ -125,7 +125,7 @@ def run(tier, replay=None):
                  "and a sample of those of 4 nodes over an alphabet of 7 simple statements and 6 compound forms "
                  "(thorough: all of size 4), plus random programs of 3..14 nodes with every construct, a corpus of "
                  "self-referencing initialisers (typed/untyped x 13 scopes x earlier/no definition), and - outside the "
-                 "model - constructor bodies over field assignment/read/return/raise in if/else, match, loops (all "
+                 "model - constructor bodies over field assignment/compound assignment (+= -= *=)/read/return/raise in if/else, match, loops (all "
                  "pairs of 26 branch shapes x prefixes x suffixes; quick: a sample); distinct by skeleton, "
                  "non-trivial = at least 3 nodes", samples,
                  extra_eval=n_run + ck.cov.get("constructor_fields", {}).get("programs", 0)
